@@ -194,7 +194,14 @@ def _configs(draw, recipe):
 
 @st.composite
 def case_strategy(draw, tier):
-    if draw(st.integers(0, 9)) < 4:
+    w = draw(st.integers(0, 10))
+    if w == 10:
+        # C10's storage-cell programs (explicitly numbered / indirectly reached / last-use variables): the optimiser's
+        # skip set and dependency search are exercised by them
+        from .c10 import many_vars_recipe
+
+        recipe = draw(many_vars_recipe(max_nv=8))
+    elif w < 4:
         recipe = draw(gen.core_recipe(max_budget=BUDGET[tier], opts={"abi_vars": 1}))
     else:
         recipe = draw(gen_sub.sub_recipe(max_budget=BUDGET[tier]))
@@ -212,7 +219,7 @@ def shard(tier, seedv, k, n, col: Collector):
         recipe = case["recipe"]
         if case.pop("_nt", False):
             col.nontriv(sha(recipe))
-        col.cls("gen:" + ("sub" if recipe.get("routines") else "core"))
+        col.cls("gen:" + ("storage-cells" if recipe.get("nv") else ("sub" if recipe.get("routines") else "core")))
         if recipe.get("f6_guards"):
             col.cls("excluded-by-construction:F6-guard-loads", recipe["f6_guards"])
         for b, d in res:
